@@ -1,9 +1,9 @@
 package handlers
 
 import (
+	"net"
     "io"
     "net/http"
-    "strings"
 
     "Havoc/pkg/colors"
     "Havoc/pkg/logger"
@@ -45,7 +45,10 @@ func (e *External) Request(ctx *gin.Context) {
     logger.Debug(" - Exc2 Host : " + ctx.Request.Host)
     logger.Debug(" - Exc2 Body : \n" + hex.Dump(Body))
 
-    ExternalIP := strings.Split(ctx.Request.RemoteAddr, ":")[0]
+    ExternalIP := ctx.Request.RemoteAddr
+    if host, _, err := net.SplitHostPort(ctx.Request.RemoteAddr); err == nil {
+        ExternalIP = host
+    }
 
     if Response, Success := parseAgentRequest(e.Teamserver, Body, ExternalIP); Success {
         _, err := ctx.Writer.Write(Response.Bytes())
